@@ -33,8 +33,8 @@ def plan(pid, tier, seed):
             _mc("Stats_MC_quick.cfg", 4000),
             _mc("Stats_MC_count_quick.cfg", 3000),
             _mc("Stats_MC_concept_quick.cfg", None),               # all 2 652 name lists replayed
-            _mc("Stats_MC_thorough.cfg", 9000, 3600, True),        # 2.47 M states, 234 441 inputs
-            _mc("Stats_MC_members_thorough.cfg", 6000, 3600),      # 2.32 M states, 200 257 inputs
+            _mc("Stats_MC_thorough.cfg", 9000, 3600),              # 2.47 M states, 234 441 inputs
+            _mc("Stats_MC_members_thorough.cfg", 6000, 3600, True),      # 2.32 M states, 200 257 inputs
             _mc("Stats_MC_members3.cfg", 3000, 3600),              # 121 270 states, 9 724 inputs
             _mc("Stats_MC_count_thorough.cfg", 4500, 3600, True),  # 2.69 M states, 185 193 models
             _mc("Stats_MC_count_overload.cfg", 2000, 3600),        # 28 561 models with two overloads sharing a key
